@@ -576,3 +576,93 @@ def inline_tail_self_calls(f, methods, depth=2):
     g.body = rewrite(f.body, 0)
     ast.fix_missing_locations(g)
     return g
+
+
+def inline_helper_calls(f, methods, depth=2):
+    """`t = self.h(a, *b[1:3])` / `t1, t2 = self.h(...)` where h is another method of the same class whose body ends in its only
+    `return` -> h's body in place (parameters bound to the arguments, locals renamed), then the assignment from the returned
+    expression(s).  Only statement-level calls with positional arguments are rewritten."""
+    import copy
+
+    def expand_args(call):
+        out = []
+        for a in call.args:
+            if isinstance(a, ast.Starred):
+                v = a.value
+                if isinstance(v, ast.Subscript) and isinstance(v.slice, ast.Slice) and v.slice.step is None and \
+                        isinstance(v.slice.lower, ast.Constant) and isinstance(v.slice.upper, ast.Constant):
+                    for i in range(v.slice.lower.value, v.slice.upper.value):
+                        out.append(ast.Subscript(value=copy.deepcopy(v.value), slice=ast.Constant(value=i), ctx=ast.Load()))
+                else:
+                    return None
+            else:
+                out.append(a)
+        return out
+
+    def rewrite(stmts, level):
+        out = []
+        for st in stmts:
+            done = False
+            if isinstance(st, ast.Assign) and len(st.targets) == 1 and isinstance(st.value, ast.Call) and isinstance(st.value.func, ast.Attribute) \
+                    and src(st.value.func.value) == 'self' and st.value.func.attr in methods and st.value.func.attr != f.name and not st.value.keywords \
+                    and level < depth:
+                g = methods[st.value.func.attr]
+                rets = [n for n in ast.walk(g) if isinstance(n, ast.Return)]
+                args = expand_args(st.value)
+                params = [a.arg for a in g.args.args[1:]]
+                if len(rets) == 1 and g.body and g.body[-1] is rets[0] and args is not None and len(args) <= len(params) \
+                        and not g.args.vararg and not g.args.kwarg:
+                    n_def = len(g.args.defaults)
+                    bound = list(args)
+                    ok = True
+                    for i in range(len(args), len(params)):
+                        j = i - (len(params) - n_def)
+                        if j < 0:
+                            ok = False
+                            break
+                        bound.append(copy.deepcopy(g.args.defaults[j]))
+                    tg = st.targets[0]
+                    rv = rets[0].value
+                    if ok and isinstance(tg, (ast.Tuple, ast.List)) and not (isinstance(rv, ast.Tuple) and len(rv.elts) == len(tg.elts)):
+                        ok = False
+                    if ok:
+                        prefix = '_%s_' % g.name
+                        local = {n.id for n in ast.walk(g) if isinstance(n, ast.Name) and isinstance(n.ctx, ast.Store)} | set(params)
+
+                        class R(ast.NodeTransformer):
+                            def visit_Name(self, n):
+                                if n.id in local:
+                                    return ast.copy_location(ast.Name(id=prefix + n.id, ctx=n.ctx), n)
+                                return n
+                        new = []
+                        for pn, a in zip(params, bound):
+                            new.append(ast.Assign(targets=[ast.Name(id=prefix + pn, ctx=ast.Store())], value=copy.deepcopy(a), type_comment=None))
+                        body = [R().visit(copy.deepcopy(x)) for x in g.body[:-1] if not (isinstance(x, ast.Expr) and isinstance(x.value, ast.Constant))]
+                        new.extend(rewrite(body, level + 1))
+                        rv2 = R().visit(copy.deepcopy(rv))
+                        if isinstance(tg, (ast.Tuple, ast.List)):
+                            for t_, e_ in zip(tg.elts, rv2.elts):
+                                new.append(ast.Assign(targets=[copy.deepcopy(t_)], value=e_, type_comment=None))
+                        else:
+                            new.append(ast.Assign(targets=[copy.deepcopy(tg)], value=rv2, type_comment=None))
+                        for x in new:
+                            ast.copy_location(x, st)
+                            for y in ast.walk(x):
+                                if not hasattr(y, 'lineno'):
+                                    ast.copy_location(y, st)
+                        out.extend(new)
+                        done = True
+            if not done:
+                for fld in ('body', 'orelse', 'finalbody'):
+                    if hasattr(st, fld) and isinstance(getattr(st, fld), list) and getattr(st, fld) and isinstance(getattr(st, fld)[0], ast.stmt):
+                        st = copy.copy(st)
+                        setattr(st, fld, rewrite(getattr(st, fld), level))
+                out.append(st)
+        return out
+    if not any(isinstance(n, ast.Assign) and isinstance(n.value, ast.Call) and isinstance(n.value.func, ast.Attribute) and src(n.value.func.value) == 'self'
+               and n.value.func.attr in methods for n in ast.walk(f)):
+        return f
+    g2 = copy.copy(f)
+    g2.body = rewrite(f.body, 0)
+    ast.fix_missing_locations(g2)
+    return g2
